@@ -15,7 +15,8 @@ RULE = ("X-wh: vector tables with 1..23 dimensions (2..12 cues, 2..13 outcomes, 
         "with the exact rational result of the Coq kernel model 801 (= the delta rule by C08_*): equal -> exact, "
         "|d| <= 1e-9*scale -> rounded, else violation. A case is non-trivial when it has >= 2 events; distinct by "
         "content hash.")
-TRUSTED = ["xarray/numpy labelled indexing used to read the returned weights; libgomp for the real parallel runs"]
+TRUSTED = ["harness/omplib.py: regular expressions over the C code Cython generated for this build (names __pyx_v_*/__pyx_t_*, brace matching, private/firstprivate/lastprivate/reduction clauses)",
+           "xarray/numpy labelled indexing used to read the returned weights; libgomp for the real parallel runs"]
 
 
 def gen_cases(rng, n, thorough):
